@@ -717,6 +717,8 @@ fn mutants_inner(m: &Module, rng: &mut Rng, prof: Profile) -> Vec<(String, Modul
                     ("opaque-by-value-outstruct-field", opq(&op)),
                     ("std-slice-in-outstruct-field", Ty::PSlice(Some((Lt::Static, false)), Prim::U8, Sd::Std)),
                     ("std-str-in-outstruct-field", Ty::Str(Some(Lt::Static), Enc::Utf8, Sd::Std)),
+                    ("std-option-of-runtime-slice-in-outstruct-field", Ty::Opt(Box::new(Ty::PSlice(Some((Lt::Static, false)), Prim::U8, Sd::Dip)), Sd::Std)),
+                    ("std-option-of-runtime-str-in-outstruct-field", Ty::Opt(Box::new(Ty::Str(Some(Lt::Static), Enc::Utf8, Sd::Dip)), Sd::Std)),
                 ]
             } else {
                 vec![
@@ -725,6 +727,9 @@ fn mutants_inner(m: &Module, rng: &mut Rng, prof: Profile) -> Vec<(String, Modul
                     ("box-opaque-in-struct-field", Ty::Box(Box::new(opq(&op)))),
                     ("opaque-by-value-struct-field", opq(&op)),
                     ("result-in-struct-field", Ty::Res(Box::new(Ty::Prim(Prim::U8)), Box::new(Ty::Unit), Sd::Dip)),
+                    ("std-option-of-runtime-slice-in-struct-field", Ty::Opt(Box::new(Ty::PSlice(Some((Lt::Static, false)), Prim::U16, Sd::Dip)), Sd::Std)),
+                    ("std-option-of-runtime-str-in-struct-field", Ty::Opt(Box::new(Ty::Str(Some(Lt::Static), Enc::Utf8, Sd::Dip)), Sd::Std)),
+                    ("std-option-of-runtime-str16-in-struct-field", Ty::Opt(Box::new(Ty::Str(Some(Lt::Static), Enc::UUtf16, Sd::Dip)), Sd::Std)),
                 ]
             };
             for (tag, ty) in bads {
